@@ -6,6 +6,7 @@ Read a VCF and one or more files with phase information (BAM/CRAM or VCF phased
 blocks) and phase the variants. The phased VCF is written to standard output.
 """
 import logging
+import os
 import sys
 import platform
 
@@ -615,6 +616,29 @@ def run_whatshap(
                     )
                     log_component_stats(overall_components, len(accessible_positions))
 
+                if os.environ.get("WHATSHAP_VERIF_TRACE"):
+                    _verif_trace(
+                        os.environ["WHATSHAP_VERIF_TRACE"],
+                        chromosome,
+                        family,
+                        trios,
+                        numeric_sample_ids,
+                        all_reads,
+                        accessible_positions,
+                        homozygous_positions,
+                        phasable_variant_table,
+                        distrust_genotypes,
+                        genetic_haplotyping,
+                        max_coverage,
+                        algorithm,
+                        recombination_costs,
+                        dp_table,
+                        superreads_list,
+                        transmission_vector,
+                        overall_components,
+                        pedigree,
+                    )
+
                 if recombination_list_filename:
                     assert transmission_vector is not None
                     n_recombinations = write_recombination_list(
@@ -662,6 +686,82 @@ def run_whatshap(
             logger.debug("Chromosome %r finished", chromosome)
 
     log_time_and_memory_usage(timers, show_phase_vcfs=show_phase_vcfs)
+
+
+def _verif_trace(
+    path,
+    chromosome,
+    family,
+    trios,
+    numeric_sample_ids,
+    all_reads,
+    accessible_positions,
+    homozygous_positions,
+    phasable_variant_table,
+    distrust_genotypes,
+    genetic_haplotyping,
+    max_coverage,
+    algorithm,
+    recombination_costs,
+    dp_table,
+    superreads_list,
+    transmission_vector,
+    overall_components,
+    pedigree,
+):
+    """Verification hook (only active when WHATSHAP_VERIF_TRACE is set): append the solver
+    instance and its result for this (chromosome, family) as one JSON line."""
+    import json
+
+    def phred_gls(sample):
+        result = []
+        for i in range(len(accessible_positions)):
+            gl = pedigree.genotype_likelihoods(sample, i)
+            result.append(None if gl is None else list(gl))
+        return result
+
+    record = {
+        "chromosome": chromosome,
+        "family": list(family),
+        "trios": [[t.child, t.father, t.mother] for t in trios],
+        "numeric_ids": {s: numeric_sample_ids[s] for s in family},
+        "algorithm": algorithm,
+        "distrust_genotypes": bool(distrust_genotypes),
+        "genetic_haplotyping": bool(genetic_haplotyping),
+        "max_coverage": max_coverage,
+        "accessible_positions": list(accessible_positions),
+        "homozygous_positions": sorted(homozygous_positions),
+        "genotypes": {
+            s: [g.as_vector() for g in phasable_variant_table.genotypes_of(s)] for s in family
+        },
+        "phred_genotype_likelihoods": {s: phred_gls(s) for s in family}
+        if distrust_genotypes
+        else None,
+        "recombination_costs": list(recombination_costs),
+        "reads": [
+            {
+                "name": r.name,
+                "source_id": r.source_id,
+                "sample_id": r.sample_id,
+                "variants": [[v.position, v.allele, v.quality] for v in r],
+            }
+            for r in all_reads
+        ],
+        "cost": dp_table.get_optimal_cost(),
+        "partitioning": list(dp_table.get_optimal_partitioning())
+        if algorithm != "hapchat"
+        else None,
+        "transmission_vector": list(transmission_vector)
+        if transmission_vector is not None
+        else None,
+        "superreads": [
+            [[[v.position, v.allele, v.quality] for v in sr] for sr in sample_superreads]
+            for sample_superreads in superreads_list
+        ],
+        "components": sorted(overall_components.items()),
+    }
+    with open(path, "a") as f:
+        f.write(json.dumps(record) + "\n")
 
 
 def compute_overall_components(
